@@ -127,6 +127,7 @@ func execC12(spec *RunSpec) *Result {
 	}
 	if ref.Panic != "" || ref.Overrun {
 		res.addStat("c11_class_events", 1)
+		noteCrash(res, spec, 0, refOp, ref)
 		return res
 	}
 	sig := func(class string, form int) string {
@@ -145,6 +146,7 @@ func execC12(spec *RunSpec) *Result {
 	check := func(op OpSpec, o Outcome, what string) {
 		if o.Panic != "" || o.Overrun {
 			res.addStat("c11_class_events", 1)
+			noteCrash(res, narrowed(op), 0, op, o)
 			return
 		}
 		form := op.Writer.Form
